@@ -10,7 +10,7 @@ repaired by a `fix:` commit in the worktree (see report / known-findings):
   new  a 9 byte frame (size 0, final) => assert panic in the mux reader goroutine (server exit)
   new  Log(""), ReadCount(0), WriteCount(0) answered with success while unauthorised
 
-Mutation testing (scratch worktree on top of the fix commits, /tmp/mut/run.py,
+Mutation testing (scratch worktree on top of the fix commits, selftest/mutations/c40_c41_mutants.py,
 `VERIF_SKIP_MC=1 VERIF_REPO=<dir> bin/vcheck C41 quick`, seed 1; "tests" = go test ./dbms/ ./dbms/mux/):
   N1  DbmsUnauth.Info returns the real Info                      tests ok    VIOLATION
   N2  serverSession.auth does not clear the nonce                tests ok    VIOLATION
@@ -34,6 +34,10 @@ META = {
  "note": "trusts TLC, the verif entry point VerifServeConn (= newServerConn on a pipe), the driver's description of each credential (which nonce/password it was computed from) and its database/session digests; auth rate limiter switched off (VerifNoAuthLimit); expiry driven by VerifExpire, not by the timer",
  "technique": "TLA+ model checking (TLC) + trace validation of the real server's responses to generated requests",
 }
+
+# TLC evaluates the trace actions recursively (continuation passing); with the default 1 MB
+# thread stack the JVM sporadically overflows on these specs ("Java StackOverflowError")
+BIGSTACK = {"JAVA_TOOL_OPTIONS": "-Xss256m"}
 
 
 def run(ctx):
@@ -77,7 +81,7 @@ def run(ctx):
             import vlib
             raise vlib.Infra("session driver rc=%d\n%s" % (rc, out[-3000:]))
     ctx.sample_trace_lines(trace, 6)
-    res = ctx.tlc_trace("TraceSession.tla", "TraceSession.cfg", trace, timeout=1500)
+    res = ctx.tlc_trace("TraceSession.tla", "TraceSession.cfg", trace, timeout=1500, extra_env=BIGSTACK)
     if not res["accepted"]:
         ctx.report_rejection(trace, res)
         return
